@@ -359,6 +359,8 @@ KERN_THEOREMS = {'kernel_dense_eq', 'kernel_sparse_eq', 'kernel_dispatch_eq'}
 
 LAY_THEOREMS = {'lay_complement_eq', 'lay_vee_eq', 'lay_dual_eq', 'lay_involutions_eq'}
 
+NUMBA_THEOREMS = {'nb_add_eq', 'nb_sub_eq', 'nb_mul_eq', 'nb_xor_eq', 'nb_or_eq', 'nb_invert_eq', 'nb_neg_eq', 'nb_pos_eq'}
+
 TRANSLATORS = [   # (script, theorems it generates (None = everything else), modules its output imports)
     ('py2lean.py', None, ['Model', 'Proofs.Rev', 'Proofs.Invol']),
     ('mv2lean.py', MV_THEOREMS, ['Proofs.Conf2', 'Proofs.CgaObj', 'Proofs.Classify']),
@@ -367,6 +369,7 @@ TRANSLATORS = [   # (script, theorems it generates (None = everything else), mod
     ('methods2lean.py', METH_THEOREMS, ['Proofs.Invol', 'Proofs.Graded', 'Proofs.Blade']),
     ('kernels2lean.py', KERN_THEOREMS, ['Model']),
     ('layout2lean.py', LAY_THEOREMS, ['Model']),
+    ('numba2lean.py', NUMBA_THEOREMS, ['Model']),
 ]
 
 
